@@ -260,10 +260,63 @@ def build_request(unit, inst, contracts):
         if mode not in ("body", "slice"):
             req["closures"] = {}
             req["loops"] = {}
+        # shape guard: fingerprints of the statements the ordinal anchors pointed at on the unchanged tree (verus/shapes.json)
+        sh = shapes().get(iid)
+        if sh and mode in ("body", "slice"):
+            for key in req["proofs"]:
+                try:
+                    if key.isdigit():
+                        req.setdefault("proof_expect", {})[key] = sh["stmts"][int(key)]
+                    elif key.startswith("loop"):
+                        j, k = key[4:].split(":")
+                        req.setdefault("proof_expect", {})[key] = sh["loops"][int(j)][int(k)]
+                except (IndexError, ValueError, KeyError):
+                    pass
+            if mode == "slice" and len(req["stmts"]) == 2 and not req["stmts_until"]:
+                try:
+                    req["stmts_expect"] = [sh["stmts"][req["stmts"][0]], sh["stmts"][req["stmts"][1] - 1]]
+                except IndexError:
+                    pass
         req["_inst"] = dict(inst)
         reqs.append(req)
         inst = uinst
     return reqs
+
+
+_SHAPES = None
+
+
+def shapes():
+    """cid -> {"stmts": [fingerprint of each top-level statement], "loops": [[...]]} as recorded on the unchanged tree"""
+    global _SHAPES
+    if _SHAPES is None:
+        p = os.path.join(VERIF, "verus", "shapes.json")
+        _SHAPES = json.load(open(p)) if os.path.exists(p) else {}
+    return _SHAPES
+
+
+def record_shapes():
+    """developer command (run on the UNCHANGED tree only): record statement fingerprints of every function whose contract
+    uses ordinal anchors (proof hints, statement ranges of slices)"""
+    global _SHAPES
+    _SHAPES = {}
+    contracts = load_contracts()
+    out = {}
+    for uf in sorted(os.listdir(os.path.join(VERIF, "verus", "units"))):
+        if not uf.endswith(".unit"):
+            continue
+        u = load_unit(uf[:-5])
+        for inst in parse_insts(u.get("inst quick", ""))[:1]:
+            reqs = [r for r in build_request(u, inst, contracts) if r["mode"] in ("body", "slice") and (r["proofs"] or r["stmts"])]
+            if not reqs:
+                continue
+            res = run_extract([{k: v for k, v in r.items() if not k.startswith("_") and k != "cid"} for r in reqs])
+            for r, o in zip(reqs, res["items"]):
+                if o["ok"] and o.get("stmt_fps"):
+                    out[r["cid"]] = {"stmts": o["stmt_fps"], "loops": o.get("loop_fps", [])}
+    with open(os.path.join(VERIF, "verus", "shapes.json"), "w") as f:
+        json.dump(out, f, indent=1, sort_keys=True)
+    print("recorded shapes of %d functions" % len(out))
 
 
 def run_extract(reqs, scans=None):
@@ -717,7 +770,10 @@ def sha(text):
 
 
 if __name__ == "__main__":
-    # developer entry: vxlib.py <unit> [K=V ...]
+    # developer entry: vxlib.py <unit> [K=V ...]   |   vxlib.py --record-shapes
+    if sys.argv[1] == "--record-shapes":
+        record_shapes()
+        sys.exit(0)
     contracts = load_contracts()
     unit = sys.argv[1]
     inst = dict(kv.split("=", 1) for kv in sys.argv[2:])
